@@ -1733,8 +1733,11 @@ impl VectorEngine {
         }
 
         let prefix = Self::collection_embedding_prefix(collection);
+        let metric = collection_config_opt
+            .as_ref()
+            .map_or(DistanceMetric::Cosine, |c| c.distance_metric);
         let query_magnitude = Self::magnitude(query);
-        if query_magnitude == 0.0 {
+        if query_magnitude == 0.0 && metric == DistanceMetric::Cosine {
             return Ok(Vec::new());
         }
 
@@ -1794,7 +1797,7 @@ impl VectorEngine {
                         if vector.len() != query.len() {
                             return None;
                         }
-                        let score = Self::cosine_similarity(query, &vector, query_magnitude);
+                        let score = Self::compute_score(query, &vector, query_magnitude, metric);
                         Some(SearchResult::new(key.to_string(), score))
                     })
                     .collect()
